@@ -107,6 +107,9 @@ def run(model, res, tier):
     m, f = acts['logic']
     key = (m.name, m.qualname_of(f))
     region = c.cg.reachable([key])
+    res.rule('R6', 'a text literal is the text that was written: the formula is not transformed as a whole (case mapping, translate, replace, regex substitution, normalisation) in front of the lexer (shared with C05.R9)')
+    from . import c05 as _c05
+    H.borrow(res, 'R6', 'formula text', lambda tmp: _c05.literal_text_rule(model, tmp, c, 'R6', 'a text operand of a comparison'))
     purity.check_region(res, c, 'R3', None, region, 'a comparison')
     purity.check_memo(res, c, 'R3', region, 'a function on the comparison path')
     res.analysed['functions on the comparison path'] = len(region)
